@@ -148,3 +148,10 @@ PROPS["C14"] = read("C14", "TestC14", "deterministic simulation of translation h
                     "Histories, interleavings and repeated executions are simulated with the real services; equal canonical text implies equal meaning (sound for passing), any other difference is reported. Query programs are sampled from the LogQL/TraceQL generators.",
                     "the canonicaliser erases integer literals of 9+ digits, date literals, and for TraceQL portions the portion selector and the list of found trace ids; live tail is exercised for log queries only (Loki defines tailing for log queries)", READ_RULE.replace("1-3 concurrent clients x 1-4 requests", "one subject request translated first / after 0-4 other requests / concurrently with 0-3 others / tailed for 0-4 ticks"),
                     ["tail-ticks-compared", "traceql-portions-compared", "translations-compared"], quick_checks=300, design_ref="DESIGN.md §5 C14")
+
+PROPS["C09"] = read("C09", "TestC09", "deterministic simulation of the split LogQL pipeline: the query face serves what ClickHouse returns for the prefix before the split point (computed by a small executable reference evaluator), the real in-process stage goroutines run under the baton scheduler with varying batch boundaries and row latencies, and the response is compared with the reference evaluation of the whole program",
+                    "Structured programs (json/logfmt/line_format split; line filters, string and numeric label filters with and/or, drop, unwrap, 11 range functions with by-grouping, 5 vector aggregations with by/without, comparison, limit, direction) over generated data sets; entries are compared as multisets keyed by label set, matrix points against tumbling range buckets. The split point assumed by the harness is confirmed with the tree's own GetBreakpoint/AnalyzeMetrics15sShortcut. Programs and data are sampled.",
+                    "the reference follows the two qryn engines where both deviate from Loki in the same way (unwrapped label kept, bare aggregation per series, label_format copy, unanchored label regex are not judged); only well-formed lines; rejected query forms are counted, not judged",
+                    "a case is one structured LogQL program whose pipeline is split by json/logfmt/line_format, a data set of 1-3 series x 0-130 lines from a catalogue, request parameters (limit, direction, step), per-row latency and a schedule tape; "
+                    "non-trivial = at least one row was served; distinct = distinct hash of (query text, grant sequence, rows served)",
+                    ["more-than-one-scan-batch", "served-rows", "entries-after-pipeline"], quick_checks=400, design_ref="DESIGN.md §5 C09")
